@@ -17,6 +17,7 @@ import (
 	"strconv"
 	"strings"
 	"syscall"
+	"unsafe"
 
 	blake2b "github.com/minio/blake2b-simd"
 )
@@ -157,10 +158,10 @@ func verifHashName(b []byte) string {
 	return base64.RawURLEncoding.EncodeToString(d[:])
 }
 func verifIsNameOf(name string, b []byte) bool { return name == verifHashName(b) }
-func verifStrEq(a, b string) bool               { return a == b }
-func verifPutU64(b []byte, v uint64)            { binary.BigEndian.PutUint64(b, v) }
-func verifGetU64(b []byte) uint64               { return binary.BigEndian.Uint64(b) }
-func verifNote(s string)                        {}
+func verifStrEq(a, b string) bool              { return a == b }
+func verifPutU64(b []byte, v uint64)           { binary.BigEndian.PutUint64(b, v) }
+func verifGetU64(b []byte) uint64              { return binary.BigEndian.Uint64(b) }
+func verifNote(s string)                       {}
 func verifIte(c bool, a, b uint64) uint64 {
 	if c {
 		return a
@@ -185,9 +186,9 @@ func verifCmpU64(a, b uint64) int {
 	return 0
 }
 func verifIfaceEq(a, b interface{}) bool { return verifDeepEq(a, b) }
-func verifStrSame(a, b string) bool { return a == b }
-func verifNondetKey(name string) uint64 { return vrNext(name) }
-func verifNondetVal(name string) uint64 { return vrNext(name) }
+func verifStrSame(a, b string) bool      { return a == b }
+func verifNondetKey(name string) uint64  { return vrNext(name) }
+func verifNondetVal(name string) uint64  { return vrNext(name) }
 func verifErrHas(err error, s string) bool {
 	return err != nil && strings.Contains(err.Error(), s)
 }
@@ -214,7 +215,7 @@ func vfsReset() {
 	vfs.crashAt, vfs.werrCall, vfs.werrAfter, vfs.crashed = -1, -1, 0, false
 }
 
-func verifNative() bool { return true }
+func verifNative() bool       { return true }
 func verifFSCrashAt(step int) { vfs.crashAt = step }
 func verifFSWriteError(call int, after int) {
 	vfs.werrCall, vfs.werrAfter = call, after
@@ -258,6 +259,12 @@ func vfsWithLimit(limit int, f func()) {
 func vfsStoreChild(store func(name string, b []byte) error) {
 	limit, _ := strconv.Atoi(os.Getenv("VERIF_CHILD_LIMIT"))
 	b, _ := hex.DecodeString(os.Getenv("VERIF_CHILD_BYTES"))
+	// The Go runtime leaves SIGXFSZ ignored-in-effect (the write just fails with EFBIG and the caller's
+	// error path runs); a crash is a process that stops *without* running anything further, so the
+	// signal's disposition is put back to the default: rt_sigaction(SIGXFSZ, {SIG_DFL}, nil, 8). The
+	// kernel then cuts the write at the limit and kills the process at the next byte.
+	var act [4]uint64
+	syscall.RawSyscall6(syscall.SYS_RT_SIGACTION, uintptr(syscall.SIGXFSZ), uintptr(unsafe.Pointer(&act[0])), 0, 8, 0, 0)
 	syscall.Setrlimit(syscall.RLIMIT_FSIZE, &syscall.Rlimit{Cur: uint64(limit), Max: uint64(limit)})
 	if err := store(os.Getenv("VERIF_CHILD_NAME"), b); err != nil {
 		os.Exit(4)
